@@ -124,7 +124,10 @@ def dominates(fn, a, b):
 
 # ---- R-FOLD -----------------------------------------------------------------------------------------------
 
-def check_fold(res, facts):
+def check_fold(res, facts, dense_proved=False):
+    """`dense_proved`: R-MLE evaluated dense fix_variables for every nv of its range and found the partial evaluation.  Then a
+    body that no longer matches the one-round template below is not a violation here (its rounds are decided together,
+    whatever their shape); the template documents the pinned shape."""
     rule = res.rule("R-FOLD", "folding kernels of fix_variables / precompute_eq are the defining recurrences (compared as polynomials)", 3)
     # --- dense ---
     fn = pick(mle_fns(facts, DENSE), "fix_variables", "MultilinearExtension")
@@ -202,7 +205,10 @@ def check_fold(res, facts):
                 problems.append("result has %s variables instead of num_vars - len(partial_point)" % show(a0))
             if a1 != wantsl:
                 problems.append("result table is %s instead of the first 2^(num_vars - len(partial_point)) entries" % show(a1))
-        (rule.bad if problems else rule.ok)(key, "; ".join(problems) if problems else "T[b] <- T[2b] + P[i](T[2b+1]-T[2b]) over 2^(nv-i-1) entries per round, dim rounds; result = first 2^(nv-dim) entries", fn.loc)
+        if problems and dense_proved:
+            rule.ok(key, "round template not matched (%s); the iterated rounds are proved equal to the partial evaluation under R-MLE" % "; ".join(problems)[:120], fn.loc)
+        else:
+            (rule.bad if problems else rule.ok)(key, "; ".join(problems) if problems else "T[b] <- T[2b] + P[i](T[2b+1]-T[2b]) over 2^(nv-i-1) entries per round, dim rounds; result = first 2^(nv-dim) entries", fn.loc)
     # --- precompute_eq ---
     fns = [f for f in facts.fns(unit="ws", crate="ark_poly") if f.id == MLE + "sparse::precompute_eq"]
     key = "ark_poly|sparse::precompute_eq"
@@ -645,6 +651,10 @@ def check_guard(res, facts):
     else:
         # assert_eq!(len, 1 << num_vars): comparison of the two sides feeds the panic arm
         conds = [g[0] for g in panic_guards(fn)]
+        # the assertion may sit in a same-crate helper (`check_table_size(num_vars, len)`): its guards in the caller's terms
+        for _, ct, callee in DF.local_callees(facts, fn):
+            amap = {j + 1: E(fn, a) for j, a in enumerate(ct["args"])}
+            conds += [DF.subst_args(g[0], amap) for g in panic_guards(callee)]
         want_sides = {C("len", A(2)), ("bin", "Shl", 1, A(1))}
         ok = any(isinstance(c, tuple) and c[0] in ("bin", "call") and (set(c[2:4]) == want_sides if c[0] == "bin" else set(c[2]) == want_sides) for c in conds)
         (rule.ok if ok else rule.bad)(key, "asserts len(evaluations) == 2^num_vars" if ok else "no guard len == 2^num_vars (found %s)" % [show(c) for c in conds], fn.loc)
@@ -834,7 +844,9 @@ def check_concat(res, facts):
 def run(ctx, res):
     facts = ctx.facts(["ws", "shapes"])
     res.analysed = facts.stats()
-    check_fold(res, facts)
+    from rules import c17_mle
+    dense_proved = c17_mle.check_mle(res, facts, ctx.tier)
+    check_fold(res, facts, dense_proved)
     check_swapbits(res, facts, ctx.tier)
     check_kernel(res, facts)
     check_ops(res, facts)
@@ -842,8 +854,6 @@ def run(ctx, res):
     check_lazy(res, facts)
     check_canon(res, facts)
     check_concat(res, facts)
-    from rules import c17_mle
-    c17_mle.check_mle(res, facts, ctx.tier)
     return {
         "level": "other",
         "explanation": "Expression reconstruction over MIR compared as polynomials (folding kernels of dense/sparse fix_variables and the eq-table), a proof of swap_bits for all 64-bit inputs and admissible windows by abstract interpretation in the GF(2)-affine bit-vector domain, symbolic evaluation of element-wise operator closures, delegation shapes of the derived operators, shape guards (including dense/sparse agreement on relabel windows), an effect rule on lazy iterator adaptors, and constructor typestate of the multivariate sparse polynomial. That iterating the kernels over all rounds equals the hypercube sum for every table size, and hash-map based accumulation order, are NOT decided.",
